@@ -146,6 +146,42 @@ class OverlapEraseFamily(Family):
         return jobs
 
 
+class EmplaceAtFamily(Family):
+    """histories with emplace(position, args...) on lists without VaryingSize parameter and with
+    trivially relocatable types (C02: no operation reads or writes outside the block); every
+    third script ends in the emplace(position) that fills the vector (recorded finding)"""
+
+    def __init__(self, nlists=6, nscripts=10):
+        super().__init__()
+        self.nlists, self.nscripts = nlists, nscripts
+
+    def corpus(self, prop):
+        return []
+
+    def jobs(self, rng, tier):
+        mult = 1 if tier == "quick" else 5
+        jobs = []
+        Ls = [L for L in gen.curated_lists() if lay.all_triv(L) and not lay.has_varying(L)]
+        more = [L for L in self.lists(rng, tier, 40) if lay.all_triv(L) and not lay.has_varying(L)]
+        seen, pick = set(), []
+        for L in Ls + more:
+            k = lay.list_repr(L) if hasattr(lay, "list_repr") else repr(L)
+            if k not in seen:
+                seen.add(k)
+                pick.append(L)
+        rng.shuffle(pick)
+        for L in pick[:(self.nlists if tier == "quick" else 3 * self.nlists)]:
+            scripts = []
+            for j in range(self.nscripts * mult):
+                r = gen.gen_emplace_at(L, K_DEFAULT, rng, rng.randrange(6, 24), noslack=(j % 3 == 2))
+                if r is not None:
+                    self.add_stats(r[1])
+                    scripts.append((gen.script_id(r[0]), r[0], None))
+            if scripts:
+                jobs.append(Job(L, K_DEFAULT, scripts, tag="emplaceat"))
+        return jobs
+
+
 class SpecialFamily(Family):
     """copy/move/swap histories over several vectors, for a covering set of allocator kinds"""
 
@@ -598,6 +634,18 @@ def shrink(v, prop, run_pair, canon, split_blocks, first_diff, orc, rundir, stri
         return v
     want_oracle = bool(v.get("oracle"))
 
+    def signature(ov, d):
+        # what kind of failure it is, with positions and numbers blanked: a candidate that fails
+        # in a DIFFERENT way (say, an element pushed over the end of the block because the
+        # dropped operation was the reserve that made room) is not a smaller instance of this one
+        if ov:
+            return "o:" + re.sub(r"[0-9]+", "#", ov[0])[:48]
+        if d is None:
+            return None
+        return "d:%s|%s" % ((d[1].split() or ["<end>"])[0], (d[2].split() or ["<end>"])[0])
+
+    sig0 = v.get("signature")
+
     def bad(lines):
         try:
             oracles.simulate(j.L, j.K, lines)
@@ -614,6 +662,8 @@ def shrink(v, prop, run_pair, canon, split_blocks, first_diff, orc, rundir, stri
         ov = orc.check(prop, j.L, j.K, lines, ib.get("s", []))
         d = first_diff(il, ml)
         agrees = strip_markers is not None and first_diff(canon(strip_markers(ib.get("s", []))), canon(strip_markers(mb.get("s", [])))) is None
+        if sig0 is not None and signature(ov if want_oracle or ov else None, d) != sig0:
+            return None
         if want_oracle:
             return (ov, d, agrees) if ov else None
         return (ov, d, agrees) if (ov or d is not None) else None
@@ -667,7 +717,7 @@ FAMILIES["C06"] = Multi(HistFamily(nlists=16, nhist=8, allow_overlap=True), Spec
                         ElemFamily(nlists=6, nscripts=14, select=lambda L: any(lay.ntc(p) or lay.ntd(p) for p in L)))
 # "no operation READS or writes outside the memory": the comparison operators on memcmp-able
 # lists (whole-buffer and run-wise fast paths), blocks flush against inaccessible pages (seed C02h)
-FAMILIES["C02"] = Multi(HistFamily(strict_block=False, nhist=6, nfill=16), SweepFamily(),
+FAMILIES["C02"] = Multi(HistFamily(strict_block=False, nhist=6, nfill=16), SweepFamily(), EmplaceAtFamily(),
                         CompareFamily(nlists=4, nscripts=10, select=lambda L: all(p.ty in (lay.TUINT, lay.TSINT, lay.TU8, lay.TS8, lay.TBYTE) for p in L)))
 FAMILIES["C13"] = Multi(CompareFamily(), SweepFamily(nunits=2))
 FAMILIES["C14"] = Multi(CompareFamily(), SweepFamily(nunits=2))
